@@ -42,6 +42,8 @@ package main
 // other positions, fewer fields, anonymous Go structs bound by the host through a pointer.
 // Literal expressions evaluated more than once (a script function returning a nested
 // literal that is called repeatedly, a literal in a loop body): c10_lit.go.
+// Assignment statements with a nested (parenthesised) target executed more than once from
+// one syntax tree, and struct values held by elements of untyped lists / maps: c10_r5.go.
 
 import (
 	"fmt"
@@ -498,11 +500,20 @@ type c10Place struct {
 	j    int
 	f    string
 	k    c10Val
+	// sf: the container is field sf of the struct VALUE that root[i] / root[k] holds (a struct
+	// value inside an untyped list or map: `a[0].C`). The field can be read and the storage of
+	// the slice / map in it can be written; the field itself cannot be assigned (c10_r5.go)
+	sf string
 }
 
 func c10P(root string) c10Place { return c10Place{root: root} }
 
 func (p c10Place) src() string {
+	if p.sf != "" {
+		q := p
+		q.sf = ""
+		return q.src() + "." + p.sf
+	}
 	switch p.sel {
 	case 'i':
 		return p.root + "[" + strconv.Itoa(p.i) + "]"
@@ -517,6 +528,9 @@ func (p c10Place) src() string {
 }
 
 func (p c10Place) kind() string {
+	if p.sf != "" {
+		return "field-of-struct-element"
+	}
 	switch p.sel {
 	case 'i', 'k':
 		return "nested"
@@ -556,7 +570,7 @@ const c10Prelude = `func c10set(x, i, v) { x[i] = v }
 func c10app(x, v) { x += v; return x }
 func c10del(x, k) { delete(x, k) }
 func c10get(x, i) { return x[i] }
-func c10sl(x, i, j) { return x[i:j] }`
+func c10sl(x, i, j) { return x[i:j] }` + c10PreludeR5
 
 func c10KeyValue(k interface{}, kt reflect.Type) reflect.Value {
 	if k == nil {
@@ -566,6 +580,15 @@ func c10KeyValue(k interface{}, kt reflect.Type) reflect.Value {
 }
 
 func c10Select(cur reflect.Value, p c10Place) reflect.Value {
+	if p.sf != "" {
+		q := p
+		q.sf = ""
+		el := c10Unwrap(c10Select(cur, q))
+		if !el.IsValid() || el.Kind() != reflect.Struct {
+			return reflect.Value{}
+		}
+		return el.FieldByName(p.sf)
+	}
 	cur = c10Unwrap(cur)
 	if !cur.IsValid() {
 		return cur
@@ -611,6 +634,9 @@ func (h *c10Hist) mget(p c10Place) reflect.Value {
 // mset rebinds the place in the model (what the Go assignment `place = nv` does).
 func (h *c10Hist) mset(p c10Place, nv reflect.Value) {
 	v := h.vars[p.root]
+	if p.sf != "" {
+		return // the field of a struct value inside a list / map is not assignable (never reached: the operations say so)
+	}
 	switch p.sel {
 	case 0:
 		v.h.Set(nv)
@@ -817,6 +843,9 @@ func (h *c10Hist) newOp(opk string, p c10Place, src string) (*c10Op, reflect.Val
 	if p.sel == 's' {
 		opk = "sliceexpr-" + opk
 	}
+	if p.sf != "" {
+		opk = "structelem-" + opk
+	}
 	return &c10Op{src: src, opk: opk, ck: ck, pk: p.kind()}, cont
 }
 
@@ -961,6 +990,9 @@ func (h *c10Hist) opWrite(p c10Place, ix c10Idx, v c10Val, viaCall bool) *c10Op 
 	}
 	switch cont.Kind() {
 	case reflect.String:
+		if p.sf != "" {
+			return nil // a store into a string rebuilds the string and assigns it to the (unassignable) field: kept out
+		}
 		s, isStr := v.v.(string)
 		switch {
 		case isStr && atLen:
@@ -1026,6 +1058,19 @@ func (h *c10Hist) opWrite(p c10Place, ix c10Idx, v c10Val, viaCall bool) *c10Op 
 			}
 			return op
 		}
+		if p.sf != "" && !viaCall {
+			// `a[0].C[len] = v` is `a[0].C = append(a[0].C, v)`, and the field of a struct VALUE held
+			// by a list / map element cannot be assigned (Go rejects the assignment). Accepted like
+			// the slice-expression target: an error leaving everything unchanged - also the spare
+			// capacity a longer slice shares - or what Go's `_ = append(a[0].C, v)` does
+			op.either, op.why = true, "append-through-unassignable-field"
+			op.commit = func(reflect.Value) {
+				if cont.Len() < cont.Cap() {
+					c10AppendModel(cont, []reflect.Value{cv}, reflect.Value{})
+				}
+			}
+			return op
+		}
 		op.commit = func(reflect.Value) {
 			if viaCall {
 				// x = append(x, v) on the callee's copy of the header: visible only in shared capacity
@@ -1059,6 +1104,12 @@ func (h *c10Hist) opAppend(form, dst string, p c10Place, rhs c10Val) *c10Op {
 		src = p.src() + " + " + rhs.src
 	case "call":
 		src, destP = dst+" = c10app("+p.src()+", "+rhs.src+")", c10P(dst)
+	}
+	if destP.sf != "" && (form == "+=" || form == "=+") {
+		// `a[0].C += v`: the append may already have written into shared spare capacity when the
+		// assignment to the unassignable field fails - error-and-unchanged and Go's append
+		// expression pull in different directions: kept out
+		return nil
 	}
 	op, cont := h.newOp("append", p, src)
 	if form == "call" {
@@ -1564,6 +1615,9 @@ func (h *c10Hist) opMapWrite(p c10Place, k, v c10Val, member, viaCall bool) *c10
 		return op
 	}
 	op.mut = true
+	if cont.IsNil() && p.sf != "" {
+		return nil // the new map would have to be assigned to an unassignable field: kept out
+	}
 	if cont.IsNil() {
 		// Go panics on a store into a nil map, the script creates the map and binds it to
 		// the place. "a store converts the value as Go would or fails with an error leaving
@@ -2151,6 +2205,9 @@ func (g *c10Gen) place() c10Place {
 			i := g.rn(cur.Len() + 1)
 			return c10Place{root: root, sel: 's', i: i, j: i + g.rn(cur.Len()-i+1)}
 		}
+		if sp, ok := g.structElemPlace(root, cur); ok {
+			return sp
+		}
 		if cur.Type() == c10USliceT && (g.rn(100) < 15 || (g.lits && g.rn(100) < 30)) {
 			var idx []int
 			for i := 0; i < cur.Len(); i++ {
@@ -2163,6 +2220,9 @@ func (g *c10Gen) place() c10Place {
 			}
 		}
 	case reflect.Map:
+		if sp, ok := g.structElemPlace(root, cur); ok {
+			return sp
+		}
 		if cur.Type() == c10UMapT && (g.rn(100) < 15 || (g.lits && g.rn(100) < 30)) {
 			var ks []c10Val
 			it := cur.MapRange()
@@ -2287,6 +2347,12 @@ func (g *c10Gen) op() *c10Op {
 	h := g.h
 	if g.lits && g.rn(100) < 14 {
 		return g.litOp()
+	}
+	if g.rn(100) < 14 {
+		// statements executed more than once, struct values inside lists / maps (c10_r5.go)
+		if op := g.r5Op(); op != nil {
+			return op
+		}
 	}
 	p := g.place()
 	cont := h.mget(p)
@@ -2910,6 +2976,12 @@ var c10Fixed = []func(h *c10Hist, do func(*c10Op)){
 			do(h.opFieldRead(n, "A"))
 		}
 	},
+	// 22: one assignment statement with a nested (also parenthesised) target executed again and
+	// again with other operands: prelude functions called repeatedly, loops (c10_r5.go)
+	c10FixedSharedTree,
+	// 23: struct values inside an untyped list / map: their slice / map fields are references,
+	// a store at index len through the unassignable field changes nothing it shares
+	c10FixedStructElem,
 }
 
 func c10NestedHistory(h *c10Hist, do func(*c10Op), typed bool) {
@@ -3167,12 +3239,14 @@ func init() {
 			}
 			return fw.Plan{
 				Level: "exploration",
-				Rule:  "one evaluation = one history: a fresh environment, 3-8 container variables (one of 12 profiles) and 10-40 operations, each its own vm.Execute call; after every operation every variable is fetched with env.Get and walked against a native Go model (types, contents, len, cap, storage sharing through a live<->model element-address bijection); containers include typed numeric slices of five element types, nil typed maps / nil typed slices (zero elements of make([]map..) / make([][]T..), names and struct fields bound to nil) and slice expressions as the left operand of a store; struct values of five shapes side by side (the same field names at other positions, a two-field shape, anonymous Go structs bound by the host through a pointer; fields of other shapes are unknown fields); in 40% of the histories with an untyped slice 1-2 script functions returning a random nested literal (lists, maps, typed literals, depth <= 3) are defined once and called again and again, and loops evaluate a literal in their body 2-4 times with in-place stores (`=`, `+= 1`) into inner containers - the Go model builds fresh storage for every evaluation of a literal; an operation the Go model rejects must report an error and leave every container unchanged. A history is non-trivial when >=3 operations ran and >=1 mutated a container; distinct = distinct operation text.",
+				Rule:  "one evaluation = one history: a fresh environment, 3-8 container variables (one of 12 profiles) and 10-40 operations, each its own vm.Execute call; after every operation every variable is fetched with env.Get and walked against a native Go model (types, contents, len, cap, storage sharing through a live<->model element-address bijection); containers include typed numeric slices of five element types, nil typed maps / nil typed slices (zero elements of make([]map..) / make([][]T..), names and struct fields bound to nil) and slice expressions as the left operand of a store; struct values of five shapes side by side (the same field names at other positions, a two-field shape, anonymous Go structs bound by the host through a pointer; fields of other shapes are unknown fields); in 40% of the histories with an untyped slice 1-2 script functions returning a random nested literal (lists, maps, typed literals, depth <= 3) are defined once and called again and again, and loops evaluate a literal in their body 2-4 times with in-place stores (`=`, `+= 1`) into inner containers - the Go model builds fresh storage for every evaluation of a literal; about 5% of the operations execute ONE assignment statement with a nested target once more with other operands ((x[i])[j] = v, x[i][j] = v, (x[i]).k1 = v, (x[i])[j] += 1, (x[i])[j]++, with and without parentheses around the container): ten script functions of the prelude that every history calls again and again on the elements of its lists of lists / maps / strings, and loops of 2-4 passes over one such statement (four spellings) - the k-th execution stores into the container its operands designate at the k-th execution; struct values are put into untyped lists and maps (`a[i] = c10mkS(ts[i:j], e)`: the slice field shares storage, and often spare capacity, with a variable) and their slice / map fields are containers for every operation; an operation the Go model rejects must report an error and leave every container unchanged. A history is non-trivial when >=3 operations ran and >=1 mutated a container; distinct = distinct operation text.",
 				Assumptions: []string{
 					"Go's own slice/map/string operations (through reflect) are the reference; capacity after a growing append is adopted from the live object",
 					"numeric-string indices only as decimal numerals with a leading zero (accepted: error, or what the integer does); not generated: float/bool indices, reslice high bound in (len,cap], struct value copies, `in` on maps/strings, multi-byte string-position stores, int->string and nil->typed-slot stores",
 					"accepted both ways: []interface{} / []float64 stored into a []int64 field (element-wise copy or error); missing key of a typed map reads nil or the zero value; a key a typed map cannot hold reads nil or errors; a store of a convertible value into a NIL typed map (error leaving everything unchanged, or a new map with the converted value bound to the place)",
 					"typed numeric slices []int32 / []byte / []float32: stores only of values the element type can hold (wrapping integer stores, string->byte/rune, []byte/[]rune->string not generated); `in` with a numeric needle of another Go type than the elements is judged only when the needle denotes a number that no element denotes (then it must be false); nil against a nil typed slice/map element is not judged",
+					"a store at index len through the field of a struct VALUE held by a list / map element (`a[0].C[len] = v`; Go cannot assign that field) is accepted as an error that leaves every container unchanged - including the spare capacity a longer slice shares - or as Go's `_ = append(a[0].C, v)`; not generated through such a field: `+=` / `= +` (append expression and failing assignment pull in different directions), stores into a string field, stores into a nil map field; struct values in TYPED maps and Go array values handed in by the host are not generated",
+					"statement loops hold only passes that succeed in the Go model (in-range stores, map entries, appends within the capacity; `+= 1` / `++` only on int64 elements that exist); failing and growing stores through a shared statement run one call per operation",
 					"a literal expression is Go's composite literal: every evaluation yields fresh storage at every nesting level; literal functions and loops are the only operations that evaluate one expression node more than once (stores below a loop's literal are in range or map entries, never at index len)",
 					"struct shapes: script-made structs start with empty slice / map fields, host structs with nil ones; the struct type built by the model with reflect.StructOf is the type the script's make(struct{...}) yields; a random (non-fixed) history of a process-wide defect may need the earlier cases of its worker process to reproduce",
 					"kept out until /repo is repaired (C10-r4-genuine.md, c10PendingFix_StructFromElement): fields of a struct value read out of an untyped list / map element and bound to a name (fixed history 21); " +
